@@ -43,7 +43,7 @@ WantAll == {"c01", "c02", "c03", "c04", "c18", "c19"}
 Step(w) ==
   LET m1  == MWrite(Cfg, ms, w)
       ob  == MRender(Cfg, m1)
-      wr  == [t |-> w.t, u |-> w.u, ok |-> IF m1.err THEN 0 ELSE 1, pl |-> ob.pl, emit |-> ob.emit]
+      wr  == [t |-> w.t, u |-> w.u, ok |-> IF m1.err THEN 0 ELSE 1, pl |-> ob.pl, emit |-> ob.emit, init |-> ob.init]
   IN /\ ms' = MarkSeen(Cfg, m1)
      /\ mon' = MonStep(Cfg, mon, wr, WantAll)
      /\ nw' = nw + 1
